@@ -2,9 +2,9 @@
 //! semantics (layout, reachability, static access sets, expected Rust items) without asking naga
 //! or the code under test.
 
-use serde::Serialize;
+use serde::{Deserialize, Serialize};
 
-#[derive(Clone, Copy, PartialEq, Eq, Hash, Debug, Serialize, PartialOrd, Ord)]
+#[derive(Clone, Copy, PartialEq, Eq, Hash, Debug, Serialize, Deserialize, PartialOrd, Ord)]
 pub enum Sc {
     F32,
     I32,
@@ -49,7 +49,7 @@ impl Sc {
     }
 }
 
-#[derive(Clone, PartialEq, Eq, Hash, Debug, Serialize)]
+#[derive(Clone, PartialEq, Eq, Hash, Debug, Serialize, Deserialize)]
 pub enum Ty {
     S(Sc),
     V(u8, Sc),
@@ -61,14 +61,14 @@ pub enum Ty {
     St(usize),
 }
 
-#[derive(Clone, PartialEq, Eq, Debug, Serialize)]
+#[derive(Clone, PartialEq, Eq, Debug, Serialize, Deserialize)]
 pub enum Io {
     None,
     Loc { loc: u32, flat: bool },
-    Builtin(&'static str),
+    Builtin(String),
 }
 
-#[derive(Clone, PartialEq, Eq, Debug, Serialize)]
+#[derive(Clone, PartialEq, Eq, Debug, Serialize, Deserialize)]
 pub struct Member {
     pub name: String,
     pub ty: Ty,
@@ -83,13 +83,13 @@ impl Member {
     }
 }
 
-#[derive(Clone, PartialEq, Eq, Debug, Serialize)]
+#[derive(Clone, PartialEq, Eq, Debug, Serialize, Deserialize)]
 pub struct StructDef {
     pub name: String,
     pub members: Vec<Member>,
 }
 
-#[derive(Clone, Copy, PartialEq, Eq, Debug, Serialize, Hash)]
+#[derive(Clone, Copy, PartialEq, Eq, Debug, Serialize, Deserialize, Hash)]
 pub enum Space {
     Uniform,
     StorageR,
@@ -99,7 +99,7 @@ pub enum Space {
     Push,
 }
 
-#[derive(Clone, Copy, PartialEq, Eq, Debug, Serialize, Hash)]
+#[derive(Clone, Copy, PartialEq, Eq, Debug, Serialize, Deserialize, Hash)]
 pub enum Dim {
     D1,
     D2,
@@ -107,7 +107,7 @@ pub enum Dim {
     Cube,
 }
 
-#[derive(Clone, Copy, PartialEq, Eq, Debug, Serialize, Hash)]
+#[derive(Clone, Copy, PartialEq, Eq, Debug, Serialize, Deserialize, Hash)]
 pub enum Acc {
     Read,
     Write,
@@ -115,21 +115,21 @@ pub enum Acc {
     Atomic,
 }
 
-#[derive(Clone, Copy, PartialEq, Eq, Debug, Serialize, Hash)]
+#[derive(Clone, Copy, PartialEq, Eq, Debug, Serialize, Deserialize, Hash)]
 pub enum Tex {
     Sampled { dim: Dim, arrayed: bool, sc: Sc, multi: bool },
     Depth { dim: Dim, arrayed: bool, multi: bool },
     Storage { dim: Dim, arrayed: bool, fmt: usize, access: Acc },
 }
 
-#[derive(Clone, PartialEq, Eq, Debug, Serialize)]
+#[derive(Clone, PartialEq, Eq, Debug, Serialize, Deserialize)]
 pub enum GKind {
     Buf { space: Space, ty: Ty },
     Tex(Tex),
     Samp { cmp: bool },
 }
 
-#[derive(Clone, PartialEq, Eq, Debug, Serialize)]
+#[derive(Clone, PartialEq, Eq, Debug, Serialize, Deserialize)]
 pub struct Global {
     pub name: String,
     pub kind: GKind,
@@ -143,7 +143,7 @@ impl Global {
     }
 }
 
-#[derive(Clone, Copy, PartialEq, Eq, Debug, Serialize, Hash, PartialOrd, Ord)]
+#[derive(Clone, Copy, PartialEq, Eq, Debug, Serialize, Deserialize, Hash, PartialOrd, Ord)]
 pub enum Stage {
     Vertex,
     Fragment,
@@ -161,7 +161,7 @@ impl Stage {
     pub const ALL: [Stage; 3] = [Stage::Vertex, Stage::Fragment, Stage::Compute];
 }
 
-#[derive(Clone, PartialEq, Eq, Debug, Serialize)]
+#[derive(Clone, PartialEq, Eq, Debug, Serialize, Deserialize)]
 pub enum AccForm {
     /// `let v = <expr>;`
     Load(String),
@@ -169,16 +169,16 @@ pub enum AccForm {
     Store(String, String),
 }
 
-#[derive(Clone, PartialEq, Eq, Debug, Serialize)]
+#[derive(Clone, PartialEq, Eq, Debug, Serialize, Deserialize)]
 pub struct Access {
     pub g: usize,
     pub form: AccForm,
     pub partner: Option<usize>,
     /// what kind of access this is (for the class histogram)
-    pub label: &'static str,
+    pub label: String,
 }
 
-#[derive(Clone, Copy, PartialEq, Eq, Debug, Serialize)]
+#[derive(Clone, Copy, PartialEq, Eq, Debug, Serialize, Deserialize)]
 pub enum CallForm {
     /// `h(x);`
     Stmt,
@@ -202,7 +202,7 @@ pub enum CallForm {
     BreakIf,
 }
 
-#[derive(Clone, PartialEq, Eq, Debug, Serialize)]
+#[derive(Clone, PartialEq, Eq, Debug, Serialize, Deserialize)]
 pub enum Stmt {
     Acc(Access),
     Call { f: usize, form: CallForm },
@@ -214,7 +214,7 @@ pub enum Stmt {
     Block(Vec<Stmt>),
 }
 
-#[derive(Clone, PartialEq, Eq, Debug, Serialize)]
+#[derive(Clone, PartialEq, Eq, Debug, Serialize, Deserialize)]
 pub struct Func {
     pub name: String,
     /// returns f32 (true) or nothing
@@ -222,22 +222,22 @@ pub struct Func {
     pub body: Vec<Stmt>,
 }
 
-#[derive(Clone, PartialEq, Eq, Debug, Serialize)]
+#[derive(Clone, PartialEq, Eq, Debug, Serialize, Deserialize)]
 pub enum EParam {
     Struct { name: String, st: usize },
-    Builtin { name: String, builtin: &'static str, ty: Ty },
+    Builtin { name: String, builtin: String, ty: Ty },
     Loc { name: String, loc: u32, ty: Ty, flat: bool },
 }
 
-#[derive(Clone, PartialEq, Eq, Debug, Serialize)]
+#[derive(Clone, PartialEq, Eq, Debug, Serialize, Deserialize)]
 pub enum EResult {
     None,
-    Builtin { builtin: &'static str, ty: Ty },
+    Builtin { builtin: String, ty: Ty },
     Loc { loc: u32, ty: Ty },
     Struct(usize),
 }
 
-#[derive(Clone, PartialEq, Eq, Debug, Serialize)]
+#[derive(Clone, PartialEq, Eq, Debug, Serialize, Deserialize)]
 pub enum WgDim {
     Lit(u32),
     Const(String, u32),
@@ -252,7 +252,7 @@ impl WgDim {
     }
 }
 
-#[derive(Clone, PartialEq, Eq, Debug, Serialize)]
+#[derive(Clone, PartialEq, Eq, Debug, Serialize, Deserialize)]
 pub struct Entry {
     pub stage: Stage,
     pub name: String,
@@ -262,7 +262,7 @@ pub struct Entry {
     pub body: Vec<Stmt>,
 }
 
-#[derive(Clone, PartialEq, Debug, Serialize)]
+#[derive(Clone, PartialEq, Debug, Serialize, Deserialize)]
 pub enum ConstVal {
     I32(i32),
     U32(u32),
@@ -275,7 +275,7 @@ pub enum ConstVal {
     AbstractFloat(u64),
 }
 
-#[derive(Clone, PartialEq, Debug, Serialize)]
+#[derive(Clone, PartialEq, Debug, Serialize, Deserialize)]
 pub struct ConstDef {
     pub name: String,
     /// the WGSL declaration text after `const NAME` (e.g. `: i32 = -3` or ` = 1.5`)
@@ -284,7 +284,7 @@ pub struct ConstDef {
     pub expect: Option<ConstVal>,
 }
 
-#[derive(Clone, PartialEq, Debug, Serialize)]
+#[derive(Clone, PartialEq, Debug, Serialize, Deserialize)]
 pub struct OverrideDef {
     pub name: String,
     pub id: Option<u16>,
@@ -293,7 +293,7 @@ pub struct OverrideDef {
     pub init: Option<String>,
 }
 
-#[derive(Clone, PartialEq, Debug, Serialize, Default)]
+#[derive(Clone, PartialEq, Debug, Serialize, Deserialize, Default)]
 pub struct Shader {
     pub structs: Vec<StructDef>,
     pub globals: Vec<Global>,
